@@ -472,6 +472,10 @@ class ResidualSampleList(SampleListBase):
 
         _ensure_proper_sample_list_ending(_sample_file_name(file_name_base, self.n_samples),
                                           overwrite, self.comm)
+        fnames = [_sample_file_name(file_name_base, isample) for isample in self.local_indices]
+        if self.MPI_master:
+            fnames.append(f"{file_name_base}.mean.pickle")
+        _ensure_no_existing_files(fnames, overwrite, self.comm)
 
         # Save samples
         with ensure_all_tasks_succeed(self.comm):
@@ -544,6 +548,8 @@ class SampleList(SampleListBase):
 
         _ensure_proper_sample_list_ending(_sample_file_name(file_name_base, self.n_samples),
                                           overwrite, self.comm)
+        fnames = [_sample_file_name(file_name_base, isample) for isample in self.local_indices]
+        _ensure_no_existing_files(fnames, overwrite, self.comm)
 
         # Save samples
         with ensure_all_tasks_succeed(self.comm):
@@ -674,6 +680,17 @@ def _consecutive_length(lst):
         if res + 1 not in lst:
             return res + 1
         res += 1
+
+
+def _ensure_no_existing_files(fnames, overwrite, comm):
+    # Without `overwrite`, no task may write anything unless the target files
+    # of all tasks are absent: a refused save must leave the directory as it was
+    with ensure_all_tasks_succeed(comm):
+        if not overwrite:
+            for ff in fnames:
+                if os.path.isfile(ff):
+                    raise RuntimeError(f"{ff} already exists. You may "
+                        "want to remove it or specify overwrite=True")
 
 
 def _ensure_proper_sample_list_ending(fname, overwrite, comm):
